@@ -49,8 +49,16 @@ SurplusSub(exp, fmt, thr) ==
           Entry(<< >>, "s1", "k1", Sub(exp, fmt)),
           Entry(<<"s1.k1">>, "in1", "k3", LinkD("in1", <<GoodSig("k3")>>, {}, ProdA))>>, {})
 
+\* the verification instant itself moves from one verification to the next (the other scenarios all verify at
+\* instant 0): each verification is judged against ITS instant, whatever was verified - or failed - before it
+Nows == {-7200, 1800, 5000, 90000}
+MovingNow ==
+  \E n \in Nows, exp \in {-3600, 0, 3600, 86400}, lvl \in {"top", "sub"} :
+     scn = [(IF lvl = "top" THEN TopCase(exp, "Z") ELSE SubCase(exp, "Z")) EXCEPT !.now = n]
+
 MCInit ==
-  /\ \/ \E exp \in Offsets, fmt \in {"Z", "+02:00"}, thr \in {1} : scn = SurplusSub(exp, fmt, thr)
+  /\ \/ MovingNow
+     \/ \E exp \in Offsets, fmt \in {"Z", "+02:00"}, thr \in {1} : scn = SurplusSub(exp, fmt, thr)
      \/ \E exp \in Offsets, fmt \in Fmts, lvl \in {"top", "sub"} :
           scn = IF lvl = "top" THEN TopCase(exp, fmt) ELSE SubCase(exp, fmt)
      \/ \E exp \in Offsets, fmt \in {"Z", "+02:00", "Z.25"}, lvl \in {"top", "sub"} :
